@@ -11,7 +11,7 @@ Source of every range (transcribed once at the pinned commit, never imported fro
           ("t2.k_retrieval must be >= 1", "t2.ranking.alpha_sim must be in [0, 1]", "... (or null)")
   [dflt]  the inline default tables/comments of configs/validate.py (DEFAULTS block, "# [0,1]", "# >= 1")
   [yaml]  configs/config.yaml (the shipped operator example; only source for the keys no message constrains:
-          t1.decay, t1.edge_type_mult, t1.radius_cap, t2.tiers, t2.exact_recent_days, budgets.*, flags.* ...;
+          budgets.*, flags.*, t1.cache.enabled, t2.owner_scope, surface_method ...;
           these rows are `soft`: the example fixes a type, but no documented rule rejects anything, so the
           spec never demands a rejection there — an accepted value must still let the engine run)
   [m9]    docs/m9/overview.md (perf.parallel.*: max_workers "values <= 1 behave sequentially",
@@ -19,6 +19,13 @@ Source of every range (transcribed once at the pinned commit, never imported fro
   [m10]   docs/m10/reflection.md (t3.reflection.*, fixtures rule)
   [m11]   docs/m11/overview.md (graph.*)
   [m13]   docs/m13/config_freeze.md (top-level key list, version)
+Revision 2 (after the validator repairs a8b9010..3647344): the stage keys t1.radius_cap, t1.decay.*,
+t1.edge_type_mult, t2.tiers, t2.exact_recent_days, t2.clusters_top_m, t2.residual_cap_per_turn, k_surface
+now carry messages and are hard, type-checked rows (`st`); "<path> must be a finite number" rejects
+NaN/+-inf wherever a number survives normalisation (every float row); "<section> must be a mapping";
+unknown keys below t1.decay; cross-field rule R9 clamp_min <= 0 <= clamp_max; t2.quality lexical/fusion
+bounds apply to the provided values.  `cap`: the type check also enforces an implementation ceiling
+(10**6 / 10**9) that the message does not print; only the `huge` class depends on it.
 Numbers are written in the spec in milli-units (value * 1000) so that TLC integers carry 0.001 steps.
 """
 from __future__ import annotations
@@ -41,22 +48,24 @@ CI = {c: i + 1 for i, c in enumerate(CLASSES)}
 # ---------------------------------------------------------------------------------------------
 SECTIONS: List[Tuple[str, int, int]] = [
     ("", 0, 0),                              # [m13] "Unknown top-level keys are rejected"
-    ("t1", 0, 0), ("t1.cache", 0, 0),        # [msg] "t1.<k> unknown key"
-    ("t1.decay", 1, 0), ("t1.edge_type_mult", 1, 0),      # [yaml] free-form stage tables
-    ("t2", 0, 0), ("t2.cache", 0, 0), ("t2.ranking", 0, 0), ("t2.hybrid", 0, 0), ("t2.reader", 0, 0),
+    ("t1", 0, 1), ("t1.cache", 0, 0),        # [msg] "t1.<k> unknown key"; "t1 must be a mapping"
+    ("t1.decay", 0, 1),                      # [msg] "t1.decay must be a mapping"; "t1.decay.<k> unknown key" (mode, rate, floor, alpha)
+    ("t1.edge_type_mult", 2, 1),             # [msg] "t1.edge_type_mult must be a mapping of relation name -> number": free names, string keys
+    ("t2", 0, 1), ("t2.cache", 0, 0), ("t2.ranking", 0, 0), ("t2.hybrid", 0, 0), ("t2.reader", 0, 0),
     ("t2.lancedb", 1, 1),                    # [msg] "t2.lancedb must be an object"
     ("t2.lancedb.partitions", 1, 1),         # [msg] "t2.lancedb.partitions must be an object"
-    ("t2.quality", 0, 0), ("t2.quality.normalizer", 0, 0), ("t2.quality.aliasing", 0, 0),
+    ("t2.quality", 0, 1), ("t2.quality.normalizer", 0, 0), ("t2.quality.aliasing", 0, 0),
     ("t2.quality.lexical", 0, 0), ("t2.quality.lexical.bm25", 0, 0), ("t2.quality.fusion", 0, 0),
     ("t2.quality.mmr", 0, 0),
-    ("t3", 0, 0), ("t3.dialogue", 0, 0), ("t3.policy", 0, 0), ("t3.reflection", 0, 0), ("t3.llm", 0, 0),
+    ("t3", 0, 1), ("t3.dialogue", 0, 0), ("t3.policy", 0, 0), ("t3.reflection", 0, 0), ("t3.llm", 0, 0),
     ("t3.llm.fixtures", 0, 0),
-    ("t4", 0, 0), ("t4.cache", 0, 0),
+    ("t4", 0, 1), ("t4.cache", 0, 0),
     ("t4.cooldowns", 2, 0),                  # [msg] "t4.cooldowns keys must be strings (op kinds)": free names, string keys
-    ("graph", 0, 0), ("graph.update", 0, 0), ("graph.decay", 0, 0), ("graph.merge", 0, 0),
+    ("graph", 0, 1), ("graph.update", 0, 0), ("graph.decay", 0, 0), ("graph.merge", 0, 0),
     ("graph.split", 0, 0), ("graph.promotion", 0, 0),
-    ("scheduler", 1, 0), ("scheduler.budgets", 1, 0), ("scheduler.fairness", 1, 0),   # no unknown-key message exists for the scheduler tree
-    ("perf", 0, 0), ("perf.t1", 0, 0), ("perf.t1.cache", 0, 0), ("perf.t1.caps", 0, 0),
+    ("scheduler", 1, 1), ("scheduler.budgets", 1, 0), ("scheduler.fairness", 1, 0),   # no unknown-key message exists for the scheduler tree
+    # [msg] "<section> must be a mapping" for t1 t2 t3 t4 graph scheduler perf t2.quality
+    ("perf", 0, 1), ("perf.t1", 0, 0), ("perf.t1.cache", 0, 0), ("perf.t1.caps", 0, 0),
     ("perf.t2", 0, 0), ("perf.t2.cache", 0, 0), ("perf.t2.reader", 0, 0), ("perf.t2.reader.partitions", 0, 0),
     ("perf.snapshots", 0, 0), ("perf.metrics", 0, 0), ("perf.parallel", 0, 0),
     ("budgets", 1, 0), ("flags", 1, 0),      # [m13]/[yaml] free-form top-level tables
@@ -71,7 +80,7 @@ def _add(path, kind, src, **kw):
     assert sec in SEC_INDEX, path
     f = {"path": path, "kind": kind, "sec": sec, "src": src, "msg": kw.pop("msg", path),
          "lo": None, "hi": None, "lox": 0, "hix": 0, "nul": 0, "soft": 0, "ne": 0,
-         "mn": None, "mx": None, "md": None, "dflt": None, "enum": None, "normlo": None, "al": None}
+         "mn": None, "mx": None, "md": None, "dflt": None, "enum": None, "normlo": None, "al": None, "st": 0, "cap": None}
     f.update(kw)
     FIELDS.append(f)
     return f
@@ -129,7 +138,7 @@ WD = "@WORK@"     # replaced by the run's scratch directory when a vector is con
 
 # ---- top level ------------------------------------------------------------------------------
 E("version", ["v1"], "v1", "[m13] must be 'v1' or omitted; [msg] version must be 'v1'")
-I("k_surface", None, None, 32, "[yaml] k_surface: 32 (int, no documented bound)", mn=1, mx=64, md=32, soft=1)
+I("k_surface", 1, None, 32, "[msg] k_surface must be an integer >= 1 (type-checked, capped at 10**6); [yaml] 32", mn=1, mx=64, md=32, st=1, cap=10 ** 6)
 E("surface_method", ["PCA", "TopK"], "PCA", "[yaml] surface_method: PCA; engine types Literal PCA|TopK", soft=1)
 I("budgets.time_ms", None, None, None, "[yaml] budgets.time_ms: 1000", mn=1, mx=100000, md=1000, soft=1)
 I("budgets.ops", None, None, None, "[yaml] budgets.ops: 1000", mn=1, mx=100000, md=1000, soft=1)
@@ -145,22 +154,23 @@ I("t1.cache.ttl_sec", 0, None, None, "[dflt] alias of ttl_s ('TTL alias preceden
 I("t1.iter_cap", 0, None, None, "[msg] t1.iter_cap must be >= 0; [yaml] 50", md=50)
 I("t1.queue_budget", 0, None, None, "[msg] t1.queue_budget must be >= 0; [yaml] 10000", mx=100000, md=10000)
 F("t1.node_budget", 0.0, None, None, "[msg] t1.node_budget must be > 0; [yaml] 1.5", lox=1, md=1.5)
-I("t1.radius_cap", None, None, None, "[yaml] t1.radius_cap: 4 (int, no documented bound)", mn=0, mx=64, md=4, soft=1)
-E("t1.decay.mode", ["exp_floor", "attn_quad"], None, "[yaml] t1.decay.mode: exp_floor; stage doc attn_quad", soft=1)
-F("t1.decay.rate", None, None, None, "[yaml] t1.decay.rate: 0.6 (number, no documented bound)", mn=0.0, mx=1.0, md=0.6, soft=1)
-F("t1.decay.floor", None, None, None, "[yaml] t1.decay.floor: 0.05 (number, no documented bound)", mn=0.0, mx=1.0, md=0.05, soft=1)
-M("t1.edge_type_mult", None, None, "[yaml] t1.edge_type_mult: {supports: 1.0, associates: 0.6, contradicts: 0.8}",
-  mn={}, mx={"supports": 1.0, "associates": 0.6, "contradicts": 0.8, "mentions": 0.25}, md={"supports": 1.0, "associates": 0.5}, soft=1)
+I("t1.radius_cap", 0, None, None, "[msg] t1.radius_cap must be an integer >= 0 (type-checked); [yaml] 4", mn=0, mx=64, md=4, st=1)
+E("t1.decay.mode", ["exp_floor", "attn_quad"], None, "[msg] t1.decay.mode must be one of {exp_floor,attn_quad}; [yaml] exp_floor")
+F("t1.decay.rate", 0.0, 1.0, None, "[msg] t1.decay.rate must be a number in [0, 1] (type-checked); [yaml] 0.6", md=0.6, st=1)
+F("t1.decay.floor", 0.0, 1.0, None, "[msg] t1.decay.floor must be a number in [0, 1] (type-checked); [yaml] 0.05", md=0.05, st=1)
+F("t1.decay.alpha", 0.0, None, None, "[msg] t1.decay.alpha must be a number >= 0 (type-checked; attn_quad mode)", mx=10.0, md=0.8, st=1)
+M("t1.edge_type_mult", None, None, "[msg] t1.edge_type_mult must be a mapping of relation name -> number; [yaml] {supports: 1.0, associates: 0.6, contradicts: 0.8}",
+  mn={}, mx={"supports": 1.0, "associates": 0.6, "contradicts": 0.8, "mentions": 0.25}, md={"supports": 1.0, "associates": 0.5}, st=1)
 # ---- t2 -------------------------------------------------------------------------------------
 E("t2.backend", ["inmemory", "lancedb"], "inmemory", "[msg] t2.backend must be one of {inmemory,lancedb}")
 I("t2.k_retrieval", 1, None, 10, "[msg] t2.k_retrieval must be >= 1; [dflt] 10", md=64)
 F("t2.sim_threshold", -1.0, 1.0, 0.0, "[msg] t2.sim_threshold must be in [-1.0, 1.0]; [dflt] 0.0", md=0.3)
-L("t2.tiers", ["exact_semantic", "cluster_semantic", "archive"], None, "[yaml] t2.tiers: [exact_semantic, cluster_semantic, archive]",
-  restricted=0, soft=1)
-I("t2.exact_recent_days", None, None, None, "[yaml] t2.exact_recent_days: 30 (int)", mn=0, mx=3650, md=30, soft=1)
-I("t2.clusters_top_m", None, None, None, "[yaml] t2.clusters_top_m: 3 (int)", mn=1, mx=64, md=3, soft=1)
+L("t2.tiers", ["exact_semantic", "cluster_semantic", "archive"], None, "[msg] t2.tiers must be a list of tier names; [yaml] [exact_semantic, cluster_semantic, archive]",
+  restricted=0)
+I("t2.exact_recent_days", 0, None, None, "[msg] t2.exact_recent_days must be an integer >= 0 (type-checked, capped at 10**9); [yaml] 30", mn=0, mx=3650, md=30, st=1, cap=10 ** 9)
+I("t2.clusters_top_m", 1, None, None, "[msg] t2.clusters_top_m must be an integer >= 1 (type-checked, capped at 10**9); [yaml] 3", mn=1, mx=64, md=3, st=1, cap=10 ** 9)
 E("t2.owner_scope", ["any", "agent", "world"], None, "[yaml] t2.owner_scope: any; operator-guide owner_scope", soft=1)
-I("t2.residual_cap_per_turn", None, None, None, "[yaml] t2.residual_cap_per_turn: 32 (int)", mn=0, mx=1000, md=32, soft=1)
+I("t2.residual_cap_per_turn", 0, None, None, "[msg] t2.residual_cap_per_turn must be an integer >= 0 (type-checked, capped at 10**9); [yaml] 32", mn=0, mx=1000, md=32, st=1, cap=10 ** 9)
 I("t2.reader_batch", 1, None, None, "[msg] t2.reader_batch must be >= 1", mx=100000, md=8192)
 S("t2.embed_root", None, "[msg] t2.embed_root must be a non-empty string path", mn=WD + "/e", md=WD + "/embed_root", mx=WD + "/" + "e" * 120)
 B("t2.cache.enabled", None, "[yaml] t2.cache.enabled: true", soft=1)
@@ -198,15 +208,15 @@ B("t2.quality.aliasing.enabled", None, "[yaml] aliasing.enabled")
 S("t2.quality.aliasing.map_path", None, "[msg] t2.quality.aliasing.map_path must be a non-empty string path", mn=WD + "/m", md=WD + "/aliases.yaml", mx=WD + "/" + "m" * 120)
 I("t2.quality.aliasing.max_expansions_per_token", 0, None, None, "[msg] must be >= 0", mx=64, md=2)
 B("t2.quality.lexical.enabled", None, "[yaml] lexical.enabled")
-F("t2.quality.lexical.bm25_k1", 0.0, None, 1.2, "[msg] t2.quality.lexical.bm25_k1 must be a number >= 0", mx=10.0, md=1.2)
-F("t2.quality.lexical.bm25_b", 0.0, 1.0, 0.75, "[msg] t2.quality.lexical.bm25_b must be a number in [0,1]", md=0.75)
+F("t2.quality.lexical.bm25_k1", 0.0, None, 1.2, "[msg] t2.quality.lexical.bm25_k1 must be a number >= 0 (type-checked)", mx=10.0, md=1.2, st=1)
+F("t2.quality.lexical.bm25_b", 0.0, 1.0, 0.75, "[msg] t2.quality.lexical.bm25_b must be a number in [0,1] (type-checked)", md=0.75, st=1)
 E("t2.quality.lexical.stopwords", ["none", "en-basic"], "en-basic", "[msg] t2.quality.lexical.stopwords must be one of {\"none\",\"en-basic\"}")
-F("t2.quality.lexical.bm25.k1", None, None, None, "[yaml] bm25: { k1: 1.2 } (number)", mn=0.0, mx=10.0, md=1.2, soft=1)
-F("t2.quality.lexical.bm25.b", None, None, None, "[yaml] bm25: { b: 0.75 } (number)", mn=0.0, mx=1.0, md=0.75, soft=1)
+F("t2.quality.lexical.bm25.k1", None, None, None, "[yaml] bm25: { k1: 1.2 } (number, coerced); [msg] must be a finite number", mn=0.0, mx=10.0, md=1.2)
+F("t2.quality.lexical.bm25.b", None, None, None, "[yaml] bm25: { b: 0.75 } (number, coerced); [msg] must be a finite number", mn=0.0, mx=1.0, md=0.75)
 I("t2.quality.lexical.bm25.doclen_floor", 0, None, None, "[msg] t2.quality.lexical.bm25.doclen_floor must be >= 0", mx=10000, md=10)
 B("t2.quality.fusion.enabled", None, "[yaml] fusion.enabled")
 E("t2.quality.fusion.mode", ["score_interp"], "score_interp", "[msg] t2.quality.fusion.mode only \"score_interp\" is supported in PR37")
-F("t2.quality.fusion.alpha_semantic", 0.0, 1.0, 0.6, "[msg] t2.quality.fusion.alpha_semantic must be a number in [0,1]", md=0.7)
+F("t2.quality.fusion.alpha_semantic", 0.0, 1.0, 0.6, "[msg] t2.quality.fusion.alpha_semantic must be a number in [0,1] (type-checked)", md=0.7, st=1)
 E("t2.quality.fusion.score_norm", ["zscore", "minmax"], None, "[msg] t2.quality.fusion.score_norm must be one of {zscore,minmax}")
 B("t2.quality.mmr.enabled", None, "[yaml] mmr.enabled")
 F("t2.quality.mmr.lambda", 0.0, 1.0, None, "[msg] t2.quality.mmr.lambda must be in [0,1]", md=0.5)
@@ -266,8 +276,8 @@ I("graph.observe_top_k", 1, None, 64, "[msg] graph.observe_top_k must be >= 1; [
 I("graph.pair_cap_per_obs", 0, None, 2048, "[msg] graph.pair_cap_per_obs must be >= 0; [dflt] 2048", mx=4096, md=2048)
 E("graph.update.mode", ["additive", "proportional"], "additive", "[msg] graph.update.mode must be one of {additive,proportional}")
 F("graph.update.alpha", 0.0, None, 0.02, "[msg] graph.update.alpha must be > 0; [dflt] 0.02", lox=1, mx=1.0, md=0.02)
-F("graph.update.clamp_min", None, None, -1.0, "[dflt]/[m11] clamp_min -1.0 (number; only rule clamp_min < clamp_max)", mn=-1.0, mx=-0.25, md=-0.9)
-F("graph.update.clamp_max", None, None, 1.0, "[dflt]/[m11] clamp_max 1.0 (number; only rule clamp_min < clamp_max)", mn=0.25, mx=1.0, md=0.9)
+F("graph.update.clamp_min", None, None, -1.0, "[dflt]/[m11] clamp_min -1.0 (number; rules clamp_min < clamp_max, clamp_min <= 0 <= clamp_max)", mn=-1.0, mx=0.125, md=-0.9)
+F("graph.update.clamp_max", None, None, 1.0, "[dflt]/[m11] clamp_max 1.0 (number; rules clamp_min < clamp_max, clamp_min <= 0 <= clamp_max)", mn=0.25, mx=1.0, md=0.9)
 I("graph.decay.half_life_turns", 1, None, 200, "[msg] graph.decay.half_life_turns must be >= 1; [dflt] 200", md=200)
 F("graph.decay.floor", 0.0, None, 0.0, "[msg] graph.decay.floor must be >= 0; must be <= graph.update.clamp_max; [dflt] 0.0", mx=0.25, md=0.01)
 B("graph.merge.enabled", False, "[dflt] merge.enabled False")
@@ -343,6 +353,7 @@ RULES = {
     "R6": (["graph.split.weak_edge_thresh", "graph.merge.min_avg_w"], "graph.split.weak_edge_thresh"),  # [msg] should be <= graph.merge.min_avg_w
     "R7": (["t3.llm.fixtures.enabled", "t3.llm.fixtures.path"], "t3.llm.fixtures.path"),   # [msg]/[m10] non-empty string when fixtures.enabled=true
     "R8": (["t3.allow_reflection", "t3.reflection.backend", "t3.llm.fixtures.enabled", "t3.llm.fixtures.path"], "t3.llm.fixtures"),  # [msg]/[m10]
+    "R9": (["graph.update.clamp_min", "graph.update.clamp_max"], "graph.update.clamp_min/clamp_max"),  # [msg] must satisfy clamp_min <= 0 <= clamp_max (weights decay towards 0)
 }
 
 
@@ -365,7 +376,7 @@ def spec_row(i: int) -> Dict[str, Any]:
            "hl": int(f["lo"] is not None), "lv": milli(f["lo"]) if k in ("int", "float", "map") else 0, "lx": int(f["lox"]),
            "hh": int(f["hi"] is not None), "hv": milli(f["hi"]) if k in ("int", "float") else 0, "hx": int(f["hix"]),
            "nul": int(f["nul"]), "soft": int(f["soft"]), "ne": int(f["ne"]), "hm": int(f["md"] is not None),
-           "al": FI[f["al"]] if f["al"] else 0}
+           "al": FI[f["al"]] if f["al"] else 0, "st": int(f["st"]), "cap": int(f["cap"] is not None)}
     if k in ("int", "float", "bool"):
         row.update(d=milli(f["dflt"]), hd=int(f["dflt"] is not None), mn=milli(f["mn"]), mx=milli(f["mx"]), md=milli(f["md"]))
     elif k == "enum":
